@@ -589,3 +589,25 @@ contract(
            "pdb2pqr.residue:Residue.set_donors_acceptors": None},
     name="Flip.__init__", native=False,
 )
+
+
+# ---------------------------------------------------------------- Alcoholic.__init__: the hydroxyl hydrogen is taken out properly
+contract(
+    "pdb2pqr.hydrogens.structures:Alcoholic.__init__", ["C14", "C03"],
+    params={"self": Obj("pdb2pqr.hydrogens.structures:Alcoholic"),
+            "residue": Named("res", Obj("pdb2pqr.aa:SER", name=Const("SER"), atoms=Items(Ref("cb"), Ref("og"), Ref("hg")),
+                                        map=DictOf(("CB", HATOM("cb", "CB", ["og"])), ("OG", HATOM("og", "OG", ["cb", "hg"])),
+                                                   ("HG", HATOM("hg", "HG", ["og"]))),
+                                        reference=Obj("pdb2pqr.definitions:DefinitionResidue", map=DictOf(
+                                            ("HG", Obj("pdb2pqr.definitions:DefinitionAtom", name=Const("HG"), bonds=Items(Const("OG")))))))),
+            "optinstance": Obj("Opt", map=DictOf(("HG", Obj("HDef")))),
+            "routines": ROUTINES()},
+    requires=[],
+    ensures=[
+        "protocol_ok(res, [cb, og, hg])",
+        "'HG' not in res.map and len(res.atoms) == 2 and not exists(og.bonds, lambda b: b is hg)",
+        "len(self.atomlist) == 1 and self.atomlist[0] is og and self.hname == 'HG'",
+    ],
+    stubs=CELL_STUBS,
+    name="Alcoholic.__init__", native=False,
+)
